@@ -29,8 +29,8 @@ func c08setup() *c08canary {
 		panic(err)
 	}
 	k := &c08canary{dir: dir, envName: "VERIF_CANARY_ENV", envVal: "ENVSECRET-c08-7731", files: map[string]string{
-		"canary.zy":    "(def CANARYMARK 424242)\n(println \"CANARY-RAN 424242\")\n",
-		"canarypkg.zy": "(package \"cpk\" { (def Secret 424243) })\n",
+		"canary.zy":    "(def CANARYMARK \"SRCSECRET-c08\")\n(println \"CANARY-RAN SRCSECRET-c08\")\n",
+		"canarypkg.zy": "(package \"cpk\" { (def Secret \"PKGSECRET-c08\") })\n",
 		"secret.txt":   "TOPSECRET-c08-9917\n",
 	}}
 	k.restore()
@@ -74,7 +74,8 @@ func (k *c08canary) breach() string {
 }
 
 // the secrets never occur in script text: they live only in the canary files and the environment
-var c08secrets = []string{"TOPSECRET-c08", "ENVSECRET-c08", "424242", "424243", "CANARY-RAN"}
+// (not numbers: a clock reading or a random number can contain any short digit string)
+var c08secrets = []string{"TOPSECRET-c08", "ENVSECRET-c08", "SRCSECRET-c08", "PKGSECRET-c08", "CANARY-RAN"}
 
 func c08leak(s string) string {
 	for _, x := range c08secrets {
